@@ -1170,6 +1170,53 @@ theorem dead_entry_never_routed_reachable (p : Pool) (pre post : List Ev) (hi : 
   obtain ⟨ha1, ha2⟩ := allAdm_append p pre post ha
   exact dead_entry_never_routed (run p pre) _ post (inv_run p [] pre (inv_init p hi) ha1) ha2 hno i c h hd
 
+/-! ### non-vacuity witnesses added by the round-6 cross-audit (b-c05) -/
+
+private def a6p : Pool :=
+  { clientH2 := false,
+    ctx := { addr := none, tls := false, via := none, udp := false, tunnel := false, canRead := false,
+             canWrite := false, error := false, alpnH2 := false, waiting := none } }
+private def a6s : Spec := { host := 7, port := 443, tls := true, via := none, udp := false }
+private def a6t : Spec := { host := 8, port := 80, tls := false, via := some (2, 3128), udp := false }
+
+example : Init a6p := by unfold Init; decide
+-- routed_to_matching / failed_not_reused on a history with two destinations, a reuse and a guarded assignment: the
+-- hypotheses hold and requests ARE routed (the conclusion is not empty)
+example : AllAdm a6p [.get 1 a6s, .result 0 (.ok false), .get 2 a6s, .get 3 a6t, .result 1 (.ok false),
+    .poke (.conn 0) (.addr (some (9, 9))), .get 4 a6s] := by decide
+example : (trace a6p [.get 1 a6s, .result 0 (.ok false), .get 2 a6s, .get 3 a6t, .result 1 (.ok false),
+    .poke (.conn 0) (.addr (some (9, 9))), .get 4 a6s]).map (·.2) =
+    [[.opened 0, .waitOn 1 0], [.routed 1 a6s 0], [.routed 2 a6s 0], [.opened 1, .waitOn 3 1], [.routed 3 a6t 1], [],
+     [.routed 4 a6s 0]] := by decide
+-- waiting_matches: two requests do wait on one pending connection
+example : ((run a6p [.get 1 a6s, .get 2 a6s]).conns.map (·.waiting)) = [some [(1, a6s), (2, a6s)]] := by decide
+-- errored_never_routed_reachable: `h`, `herr` after a failed TLS handshake, `ha` for a continuation that asks again
+example : ((run a6p [.get 1 a6s, .result 0 (.fail true)]).conns[0]?).map (·.error) = some true := by decide
+example : AllAdm a6p ([.get 1 a6s, .result 0 (.fail true)] ++ [.get 2 a6s, .setError (.conn 0), .get 3 a6s]) := by decide
+-- dead_entry_never_routed_reachable: `hd` after a CONNECT refused by the proxy (no error recorded)
+example : ∃ c, (run a6p [.get 1 a6t, .result 0 (.fail false)]).conns[0]? = some c ∧ Dead c :=
+  ⟨_, rfl, by decide, by decide, by decide⟩
+-- ... and after the peer closed an established connection
+example : ∃ c, (run a6p [.get 1 a6s, .result 0 (.ok false), .peerClose (.conn 0)]).conns[0]? = some c ∧ Dead c :=
+  ⟨_, rfl, by decide, by decide, by decide⟩
+-- failed_attempt_never_routed_reachable: `h`, `hw`, `ha`, `hno`
+example : ∃ c, (run a6p [.get 1 a6s, .get 2 a6s]).conns[0]? = some c ∧ c.waiting = some [(1, a6s), (2, a6s)] :=
+  ⟨_, rfl, by decide⟩
+example : AllAdm a6p ([.get 1 a6s, .get 2 a6s] ++ Ev.result 0 (.fail true) :: [.get 3 a6s]) := by decide
+example : NoReopen ([.get 1 a6s, .get 2 a6s] ++ Ev.result 0 (.fail true) :: [.get 3 a6s]) := by
+  intro e he t r w heq
+  simp at he
+  rcases he with rfl | rfl | rfl | rfl <;> simp_all
+-- open_conn_immutable / open_interval_immutable: entry 0 is open and stays open through a reuse, a guarded assignment
+-- (which raises) and another destination's attempt
+example : ((run a6p [.get 1 a6s, .result 0 (.ok false)]).conns[0]?).map (·.connected) = some true := by decide
+example : StaysOpen (run a6p [.get 1 a6s, .result 0 (.ok false)])
+    [.get 2 a6s, .poke (.conn 0) (.addr (some (9, 9))), .get 3 a6t] 0 :=
+  ⟨⟨_, rfl, by decide⟩, ⟨_, rfl, by decide⟩, ⟨_, rfl, by decide⟩, trivial⟩
+example : (step (run a6p [.get 1 a6s, .result 0 (.ok false)]) (.poke (.conn 0) (.addr (some (9, 9))))).2.2 = .raised := by decide
+-- setAttr_guard: an open connection
+example : (newConn a6s).connected = false ∧ ({ newConn a6s with canRead := true, canWrite := true } : Conn).connected = true := by decide
+
 end MitmVerif.Props.C08
 
 
